@@ -10,3 +10,4 @@ python3 tools/tl2lean.py Api "$REPO/schemes/api_latest.tl" lean/Mtv/Gen/SchemaAp
 python3 tools/tl2lean.py Mt "$REPO/schemes/mtproto.tl" lean/Mtv/Gen/SchemaMt.lean
 (cd harness && go build -o ../.build/c13facts ./cmd/c13facts)
 .build/c13facts "$REPO" lean/Mtv/Gen/Methods.lean
+tools/regen_registry.sh && python3 tools/gen_c13.py
